@@ -142,8 +142,7 @@ func knownMatch(c *drive.Case, out *drive.Outcome) string {
 	if c.Prog == nil {
 		return ""
 	}
-	f := c.Prog.Features()
-	if rec.Known("C05-F1") && f.IncNested {
+	if rec.Known("C05-F1") && len(out.CohortRisk) > 0 {
 		switch out.Symptom {
 		case "missing-request", "not-complete", "extra-request", "flows", "ends", "errors":
 			return "C05-F1"
